@@ -228,6 +228,40 @@ TEXT["C17"] = dict(
          "(diamond_logged_twice, inherited_once_false_for_diamond — known finding K17-private-diamond)." + GEN_TIE,
     note=TRUST + " Superclass name resolution (aliases) is analyser-side: Theorems/C08 findAlias_known + S-A.")
 
+TEXT["C11"] = dict(
+    technique="Lean 4 proof (complete characterisation of the import bookkeeping; every named leaf of every rendered type is registered or exempt; import block = final set of the file) + S-B byte-exact correspondence + S-E reference-closure oracle",
+    text="Proof: Theorems/C11 proves for all inputs: addToImports_spec / addToImports_closed_form give the exact effect of the "
+         "import bookkeeping (exempt names; the same-module test as the substring test it is; in-package class found -> import "
+         "of its shortest public path; no class found -> placeholder queued and import of the name itself); "
+         "type_leaves_registered: after rendering ANY type, every named leaf is a built-in mapping or satisfies the registration "
+         "disjunction; imports and placeholders only grow within a file and are reset exactly at the start of a file "
+         "(imports_only_grow, module_file_start); the printed import block is the sorted set of import lines of the FINAL import "
+         "set of that file (file_imports_complete, reexport_file_imports_complete, import_line_form); every public superclass is "
+         "registered (superclass_registered); every queued foreign class gets a placeholder write whose package text equals the "
+         "import's (foreign_placeholder_exists; name agreement only when both conversions agree: _partial with counterexample). "
+         "The property as stated is FALSE of model and implementation: seven kernel-checked counterexamples delimit it (known "
+         "findings K11-*)." + GEN_TIE + " For C11 the S-B oracle is the byte-exact correspondence only; S-E resolves every class "
+         "name and import of every stub against all generated stubs.",
+    note=TRUST + " The S-E oracle attributes each failure to the defect classes K11-private-class-reference, K11-private-path, "
+         "K11-reexport-moves(-stub, -module-stub), K11-aliased-reexport, K11-returned-variable-name by facts of the failing "
+         "reference; a failure outside these classes is a violation.")
+TEXT["C18"] = dict(
+    technique="Lean 4 proof (two-run simulation of the generator: dependence on the API only through four lookups; block independence and permutation of declarations) + S-M metamorphic runs of the whole tool",
+    text="Proof: Theorems/C18 proves for all inputs: callGenerator reads the API only through the re-export map, the import lookup, "
+         "getClassInPackage and the fuel (callGenerator_congr, modules_and_package_irrelevant); a successful class rendering is "
+         "independent of surplus fuel (createClassString_fuel_mono); adding classes/modules that no lookup of the module can hit "
+         "leaves its stub byte-identical (unrelated_module_added; the side condition is necessary: same_name_class_changes_import "
+         "is the kernel-checked witness of cross-module interference through suffix matching); the text block of a function does "
+         "not depend on the incoming state beyond the module ids and the imports it itself would add, and permuting the functions "
+         "or classes of a module permutes the blocks and leaves header and import block unchanged (functions_perm_partial, "
+         "classes_perm_partial, module_reorder_partial: _partial because the 'internal class as type' marker reads the imports "
+         "accumulated so far — counterexample included); createClassString_restores_generics (after the repair of the stale "
+         "generics defect this proof attempt found)." + GEN_TIE + " S-M runs the whole tool on a generated package and on variants "
+         "(unrelated module added with fresh / re-used names, changed, renamed; functions of a module reversed) and compares "
+         "unrelated stubs byte for byte, the permuted module's stub declaration by declaration.",
+    note=TRUST + " The analyser side (package-wide alias table) has no locality theorem; it is exercised by S-M only. "
+         "Theorems/C08 findAlias_known states the one alias rule that was repaired.")
+
 NOT_YET = "not claimed yet: theorems for this property are still being proved (see DESIGN.md)"
 
 
